@@ -118,7 +118,7 @@ const (
 
 // classify: is s = Base58(version || h || first4(sha256d(version || h))), version 00/6f, |h| = 20 ?
 func classify(s string) (class, []byte) {
-	p, ok := specDecode(s)
+	p, ok := specDecodeAny(s)
 	if !ok || len(p) != 25 || (p[0] != 0x00 && p[0] != 0x6f) {
 		return malformed, nil
 	}
@@ -165,63 +165,116 @@ type obs struct {
 	pkh       string
 	scriptOK  bool
 	script    []byte
+	sc        *bscript.Script // the object NewP2PKHFromAddress returned (kept and compared again at the end)
 	payOK     bool
 	payScript []byte
+	addOK     bool
+	addScript []byte
 }
 
-func observe(s string) (o obs) {
-	q := fmt.Sprintf("%q", s)
+// observeWith: one string through every acceptor; what is wrong with the answers themselves goes to v (the caller
+// decides where: straight to the report, or - when several strings are observed at once - into a list replayed in order)
+func observeWith(s string, v func(site, what string)) (o obs) {
 	if p, msg := common.Safely(func() {
-		v, err := bscript.ValidateAddress(s)
-		o.validate = v && err == nil
-		if v != (err == nil) {
-			violate("ValidateAddress/verdict-and-error-disagree", fmt.Sprint(v, err), q)
+		ok, err := bscript.ValidateAddress(s)
+		o.validate = ok && err == nil
+		if ok != (err == nil) {
+			v("ValidateAddress/verdict-and-error-disagree", fmt.Sprint(ok, err))
 		}
 	}); p {
-		violate("ValidateAddress/panic", msg, q)
+		v("ValidateAddress/panic", msg)
 	}
 	if p, msg := common.Safely(func() {
 		a, err := bscript.NewAddressFromString(s)
 		if err == nil && a != nil {
 			o.fromOK, o.pkh = true, a.PublicKeyHash
 			if a.AddressString != s {
-				violate("NewAddressFromString/address-string-changed", a.AddressString, q)
+				v("NewAddressFromString/address-string-changed", abbreviate(a.AddressString))
 			}
 		}
 	}); p {
-		violate("NewAddressFromString/panic", msg, q)
+		v("NewAddressFromString/panic", msg)
 	}
 	if p, msg := common.Safely(func() {
 		sc, err := bscript.NewP2PKHFromAddress(s)
 		if err == nil && sc != nil {
-			o.scriptOK, o.script = true, append([]byte{}, (*sc)...)
-			retain("NewP2PKHFromAddress", o.script, sc)
+			o.scriptOK, o.script, o.sc = true, append([]byte{}, (*sc)...), sc
 		}
 	}); p {
-		violate("NewP2PKHFromAddress/panic", msg, q)
+		v("NewP2PKHFromAddress/panic", msg)
 	}
 	if p, msg := common.Safely(func() {
 		tx := bt.NewTx()
 		err := tx.PayToAddress(s, 1000)
 		if err == nil {
 			if len(tx.Outputs) != 1 || tx.Outputs[0].Satoshis != 1000 {
-				violate("PayToAddress/output-not-appended", "", q)
+				v("PayToAddress/output-not-appended", "")
 			} else {
 				o.payOK, o.payScript = true, []byte(*tx.Outputs[0].LockingScript)
 			}
 		} else if len(tx.Outputs) != 0 {
-			violate("PayToAddress/output-added-on-error", "", q)
+			v("PayToAddress/output-added-on-error", "")
 		}
 	}); p {
-		violate("PayToAddress/panic", msg, q)
+		v("PayToAddress/panic", msg)
+	}
+	if len(s) > 20000 {
+		// go-bk's decoder is quadratic; PayToAddress is AddP2PKHOutputFromAddress under another name and has just been asked
+		o.addOK, o.addScript = o.payOK, o.payScript
+		return
+	}
+	if p, msg := common.Safely(func() {
+		tx := bt.NewTx()
+		err := tx.AddP2PKHOutputFromAddress(s, 1000)
+		if err == nil {
+			if len(tx.Outputs) != 1 || tx.Outputs[0].Satoshis != 1000 {
+				v("AddP2PKHOutputFromAddress/output-not-appended", "")
+			} else {
+				o.addOK, o.addScript = true, []byte(*tx.Outputs[0].LockingScript)
+			}
+		} else if len(tx.Outputs) != 0 {
+			v("AddP2PKHOutputFromAddress/output-added-on-error", "")
+		}
+	}); p {
+		v("AddP2PKHOutputFromAddress/panic", msg)
 	}
 	return
 }
 
+func observe(s string, q interface{}) obs {
+	return observeWith(s, func(site, what string) { violate(site, what, q) })
+}
+
+func abbreviate(s string) string {
+	if len(s) > 120 {
+		return fmt.Sprintf("%q... (%d bytes)", s[:120], len(s))
+	}
+	return s
+}
+
 // stringCase: the property on one string, for every acceptor; optionally a model case.
 func stringCase(kind, s string, toCoq bool) {
-	q := fmt.Sprintf("%q", s)
-	o := observe(s)
+	coq := ""
+	if toCoq {
+		coq = coqText(s)
+	}
+	stringCaseAs(kind, s, fmt.Sprintf("%q", s), coq, "s|"+s, nil)
+}
+
+// stringCaseAs: the same with the way the string is shown in reports (q), written as a Gallina term (coqS; "" = Go side
+// only) and keyed given by the caller (long strings are shown and written as expressions, not spelled out); pre, when
+// not nil, holds what the acceptors answered (observed beforehand, possibly by several goroutines at once).
+func stringCaseAs(kind, s string, q interface{}, coqS, key string, pre *obs) {
+	toCoq := coqS != ""
+	var o obs
+	if pre != nil {
+		o = *pre
+	} else {
+		o = observe(s, q)
+	}
+	if o.sc != nil {
+		retain("NewP2PKHFromAddress", o.script, o.sc)
+	}
 	cl, h := classify(s)
 	isBip := strings.HasPrefix(s, "bitcoin-script:")
 	// validation: accept <=> Base58Check (the BIP276 branch belongs to C17)
@@ -231,7 +284,7 @@ func stringCase(kind, s string, toCoq bool) {
 			if cl == wrongChecksum {
 				site = "ValidateAddress/accepts-wrong-checksum"
 			}
-			violate(site, "", q)
+			violate(site, "validated although not Base58 of 25 bytes with version 00/6f and first4(sha256d(version||hash)) as the last four", q)
 		}
 		if !o.validate && cl == valid {
 			violate("ValidateAddress/rejects-valid-address", "", q)
@@ -241,8 +294,10 @@ func stringCase(kind, s string, toCoq bool) {
 	for _, a := range []struct {
 		api string
 		ok  bool
-	}{{"NewAddressFromString", o.fromOK}, {"NewP2PKHFromAddress", o.scriptOK}, {"PayToAddress", o.payOK}} {
+	}{{"NewAddressFromString", o.fromOK}, {"NewP2PKHFromAddress", o.scriptOK}, {"PayToAddress", o.payOK}, {"AddP2PKHOutputFromAddress", o.addOK}} {
 		switch {
+		case a.ok && cl == wrongChecksum && a.api == "AddP2PKHOutputFromAddress":
+			// PayToAddress is this function under another name: reported there, and the two must agree (below)
 		case a.ok && cl == wrongChecksum:
 			violate(a.api+"/accepts-wrong-checksum", "accepted although the last four payload bytes are not first4(sha256d(version||hash))", q)
 		case a.ok && cl == malformed:
@@ -254,6 +309,9 @@ func stringCase(kind, s string, toCoq bool) {
 	if o.scriptOK != o.fromOK || o.payOK != o.fromOK {
 		violate("NewP2PKHFromAddress/verdict-differs-from-NewAddressFromString", fmt.Sprint(o.fromOK, o.scriptOK, o.payOK), q)
 	}
+	if o.addOK != o.payOK || !bytes.Equal(o.addScript, o.payScript) {
+		violate("AddP2PKHOutputFromAddress/differs-from-PayToAddress", fmt.Sprintf("%v %x / %v %x", o.addOK, o.addScript, o.payOK, o.payScript), q)
+	}
 	if cl != malformed { // whatever is accepted must carry the hash the string encodes
 		if o.fromOK && o.pkh != hex.EncodeToString(h) {
 			violate("NewAddressFromString/wrong-hash", o.pkh, q)
@@ -264,19 +322,23 @@ func stringCase(kind, s string, toCoq bool) {
 		if o.payOK && !bytes.Equal(o.payScript, p2pkh(h)) {
 			violate("PayToAddress/wrong-script", hex.EncodeToString(o.payScript), q)
 		}
+		if o.addOK && !bytes.Equal(o.addScript, p2pkh(h)) {
+			violate("AddP2PKHOutputFromAddress/wrong-script", hex.EncodeToString(o.addScript), q)
+		}
 	}
 	coq := ""
 	if toCoq {
-		coq = fmt.Sprintf("CString %s %s %s %s %s", coqText(s), common.CoqBool(o.validate), coqOptText(o.pkh, o.fromOK),
+		coq = fmt.Sprintf("CString %s %s %s %s %s", coqS, common.CoqBool(o.validate), coqOptText(o.pkh, o.fromOK),
 			coqOptBytes(o.script, o.scriptOK), coqOptBytes(o.payScript, o.payOK))
 	}
 	cls := map[class]string{valid: "valid", wrongChecksum: "wrong-checksum", malformed: "malformed"}[cl]
-	addCase("string/"+kind+"/"+cls, coq, map[string]interface{}{"string": q, "validate": o.validate, "from_string": o.fromOK}, "s|"+s, len(s) >= 20)
+	addCase("string/"+kind+"/"+cls, coq, map[string]interface{}{"string": q, "validate": o.validate, "from_string": o.fromOK}, key, len(s) >= 20)
 }
 
 // changeCase: ChangeToAddress routes the string through NewP2PKHFromAddress
-func changeCase(s string) {
-	q := fmt.Sprintf("%q", s)
+func changeCase(s string) { changeCaseAs(s, fmt.Sprintf("%q", s)) }
+
+func changeCaseAs(s string, q interface{}) {
 	_, e0 := bscript.NewP2PKHFromAddress(s)
 	if p, msg := common.Safely(func() {
 		tx := bt.NewTx()
@@ -842,6 +904,9 @@ func main() {
 	changeCase("")
 	changeCase("bitcoin-script:0101" + hex.EncodeToString(sha256d([]byte("bitcoin-script:0101"))[:4]))
 
+	// 4b. long strings: lengths and counts beyond 2^8 and 2^16 (long.go)
+	longStrings(r, base, th)
+
 	// 5. scripts: mutations of the canonical template, other push encodings of the hash, truncations
 	h := hashes[6]
 	can := p2pkh(h)
@@ -879,7 +944,7 @@ func main() {
 
 	c.Stats.Extra["violation_counts_by_site"] = perSite
 	c.Stats.Extra["derived_addresses"] = len(derived)
-	c.Stats.Rule = "go-bk base58: byte lists (0..3 leading zeros, length 0..40) and alphabet strings incl. invalid characters. Hashes: boundary (all-zero, all-ff, 1..3 leading zero bytes) + seeded random 20-byte hashes x 2 networks; keys: seeded secp256k1 keys x 2 networks (HASH160 recomputed in Gallina); key/hash byte strings of other lengths. Strings: 6 base addresses (mainnet, two leading '1's, both testnet prefixes, burn address) with EVERY single-character substitution (57 x length; model side: all for the first address, 3 per position for the others; thorough: all), all adjacent transpositions, all deletions, insertions at every position ('1' and a random character; all 58 at first/second/last position), a non-Base58 character at every position, the payload plus k*2^200 for eight k (26-byte values whose low 25 bytes are valid), six non-ASCII look-alikes at every position (code points U+0100/U+0400/U+4E00 + the character, the character with the top bit set, a combining accent), whitespace/case variants, leading-'1' insertion/deletion; re-encoded payloads with altered checksum (bit flip, random, checksum without version, single SHA-256), wrong version bytes {05,c4,01,6e,70,80,ef,ff} with right checksum, payload lengths 24/26 and others with right checksum, long/short/empty strings, bitcoin-script texts. Every string goes through ValidateAddress, NewAddressFromString, NewP2PKHFromAddress, PayToAddress (a sample through ChangeToAddress). Scripts: canonical template, every truncation, byte substitutions at the template positions, PUSHDATA1/2/4 encodings, hostile lengths, random bytes through PublicKeyHash/IsP2PKH/Addresses. Every hash constructor is called again after the owner of its earlier result edited that result; all hashes are derived, validated and turned into scripts again by 8 goroutines at once and compared with the specification. distinct = distinct input (string / bytes / hash+network); non-trivial = strings of at least 20 characters, 20-byte hashes, real keys, scripts longer than 2 bytes, non-empty codec inputs"
+	c.Stats.Rule = "go-bk base58: byte lists (0..3 leading zeros, length 0..40) and alphabet strings incl. invalid characters. Hashes: boundary (all-zero, all-ff, 1..3 leading zero bytes) + seeded random 20-byte hashes x 2 networks; keys: seeded secp256k1 keys x 2 networks (HASH160 recomputed in Gallina); key/hash byte strings of other lengths. Strings: 6 base addresses (mainnet, two leading '1's, both testnet prefixes, burn address) with EVERY single-character substitution (57 x length; model side: all for the first address, 3 per position for the others; thorough: all), all adjacent transpositions, all deletions, insertions at every position ('1' and a random character; all 58 at first/second/last position), a non-Base58 character at every position, the payload plus k*2^200 for eight k (26-byte values whose low 25 bytes are valid), six non-ASCII look-alikes at every position (code points U+0100/U+0400/U+4E00 + the character, the character with the top bit set, a combining accent), whitespace/case variants, leading-'1' insertion/deletion; re-encoded payloads with altered checksum (bit flip, random, checksum without version, single SHA-256), wrong version bytes {05,c4,01,6e,70,80,ef,ff} with right checksum, payload lengths 24/26 and others with right checksum, long/short/empty strings, bitcoin-script texts. Long strings (long.go; written as expressions, the model receives srep terms): n x '1' before each base address for n around 2^8 k and 2^16 (25..258, 511..513, 768, 1024, 4096, 16384, 65535..65537, 65792; thorough: up to 262144), after it and in its middle (256, 512, 65536); text of 256 / 512 / 65536 characters (a random Base58 word repeated, blanks, NUL bytes, the address itself cut to size) after and before the address; the address repeated 3, 4, 8, 16, 257 times and the first count whose total length is the address's own modulo 256, with separators (NUL, comma, newline, blank, semicolon); the payload plus m*2^200 with m chosen so that the string has the address's length + 256 / + 65536 or exactly 256 / 512 characters; payloads whose decoded length is 25 + 256 / 512 / 65536 with a supported first byte (valid 25 bytes then zero / random bytes, Base58Check of the wrong length, padding between version and hash); nothing but 25 + 2^8 k / 2^16 and neighbouring numbers of '1'; bodies of 36..65536 characters (one character, a random word, with leading '1's, an invalid character last). Strings of 2^16 characters: one address per family in quick, all in thorough; model side: every run of '1' up to 65537, bodies up to 300 characters. The acceptors answer for eight long strings at a time; a string none of them comes back from within the patience is reported. Every string goes through ValidateAddress, NewAddressFromString, NewP2PKHFromAddress, PayToAddress, AddP2PKHOutputFromAddress (a sample through ChangeToAddress). Scripts: canonical template, every truncation, byte substitutions at the template positions, PUSHDATA1/2/4 encodings, hostile lengths, random bytes through PublicKeyHash/IsP2PKH/Addresses. Every hash constructor is called again after the owner of its earlier result edited that result; all hashes are derived, validated and turned into scripts again by 8 goroutines at once and compared with the specification. distinct = distinct input (string / bytes / hash+network); non-trivial = strings of at least 20 characters, 20-byte hashes, real keys, scripts longer than 2 bytes, non-empty codec inputs"
 	concurrentDerivation(hashes, pick(6, 40))
 	checkRetained()
 	c.Finish()
